@@ -113,6 +113,13 @@ def _eq(ctx, got, want, what, info=""):
                  % (int(bad.sum()), w.size, tuple(int(k) for k in idx), float(g.ravel()[i]), float(w.ravel()[i]), info))
 
 
+def _item(ctx, d, k, what):
+    try:
+        return d[k]
+    except Exception as e:  # noqa
+        ctx.fail(what, "entry %r is missing (%s: %s); has %r" % (k, type(e).__name__, e, sorted(map(str, d.keys())) if hasattr(d, "keys") else d))
+
+
 def _no_stray(ctx, what):
     p = os.path.join(_SCRATCH_HOME, ".cherab")
     if os.path.exists(p):
@@ -199,8 +206,10 @@ def adf11_cases(draw):
     nd, nt = draw(_size), draw(_size)
     nblk = draw(st.one_of(st.integers(1, z), st.just(z), st.integers(1, min(z, 3))))
     nblk = max(1, min(nblk, 9000 // (nd * nt)))
-    z1min = draw(st.one_of(st.just(1), st.integers(1, z - nblk + 1)))
     resolved = draw(st.booleans())
+    if resolved:
+        nblk = min(nblk, 15)       # the line of metastable counts (16I5) stays a single line
+    z1min = draw(st.one_of(st.just(1), st.integers(1, z - nblk + 1)))
     lt0 = draw(st.one_of(st.integers(-150000, -1), st.integers(0, 250000), st.sampled_from([-69897, -100000, -1, 0, 1])))
     case = {"cls": draw(st.sampled_from(sorted(ADF11))), "el": el, "z1min": z1min, "nblk": nblk, "nd": nd, "nt": nt,
             "resolved": resolved, "ld0": draw(st.integers(500000, 1400000)), "lt0": lt0,
@@ -277,9 +286,9 @@ def run_adf11(case, ctx):
         for b in d["blocks"]:
             g = got[el][b["z1"]]
             info = "(Z1=%d, %d densities x %d temperatures)" % (b["z1"], case["nd"], case["nt"])
-            _eq(ctx, g["ne"], want_ne, "parse/ne", info)
-            _eq(ctx, g["te"], want_te, "parse/te", info)
-            _eq(ctx, g["rates"], _vals(b["table"]).T, "parse/rates", info)
+            _eq(ctx, _item(ctx, g, "ne", "parse/ne"), want_ne, "parse/ne", info)
+            _eq(ctx, _item(ctx, g, "te", "parse/te"), want_te, "parse/te", info)
+            _eq(ctx, _item(ctx, g, "rates", "parse/rates"), _vals(b["table"]).T, "parse/rates", info)
         # ---- install -> repository: 10**x, cm^-3 -> m^-3, cm^3 -> m^3, charge = Z1 - 1 for scd / plt
         with ctx.cut("install_adf11" + cls):
             _install_adf11(case, el, rel, adas, repo)
@@ -290,9 +299,9 @@ def run_adf11(case, ctx):
             info = "(Z1=%d -> charge %d)" % (b["z1"], q)
             with ctx.cut("get/" + cls):
                 g = _get_adf11(case, el, q, repo)
-            _eq(ctx, g["ne"], lin_ne, "repo/ne", info)
-            _eq(ctx, g["te"], lin_te, "repo/te", info)
-            _eq(ctx, g["rate"], _pow10(_vals(b["table"]).T) * 1e-6, "repo/rate", info)
+            _eq(ctx, _item(ctx, g, "ne", "repo/ne"), lin_ne, "repo/ne", info)
+            _eq(ctx, _item(ctx, g, "te", "repo/te"), lin_te, "repo/te", info)
+            _eq(ctx, _item(ctx, g, "rate", "repo/rate"), _pow10(_vals(b["table"]).T) * 1e-6, "repo/rate", info)
         for q in (z1s[0] + off - 1, z1s[-1] + off + 1):
             if 0 <= q <= el.atomic_number:
                 _absent(ctx, "repo/absent-charge", lambda *a: _get_adf11(case, *a), el, q, repo)
@@ -300,6 +309,7 @@ def run_adf11(case, ctx):
 
 # ============================================================================================== ADF15
 TYPES = {"EXCIT": "excitation", "RECOM": "recombination", "CHEXC": "thermalcx"}
+POOLS = [["EXCIT", "RECOM"], ["EXCIT", "RECOM"], ["EXCIT"], ["EXCIT", "RECOM", "CHEXC"], ["EXCIT", "RECOM", "CHEXC"], ["CHEXC"]]
 MODES = ["H", "Hlike", "Hlike-bnd", "full", "hf-hydrogen", "hf-hydrogen-like"]
 
 
@@ -309,13 +319,14 @@ def adf15_cases(draw, absent=False):
     if mode == "H":
         el, q = "hydrogen", 0
     else:
-        el = draw(st.sampled_from(NAMES[1:] if mode in ("Hlike", "Hlike-bnd", "full") else NAMES))
+        # hydrogen itself is always read with the 'hydrogen' index style (element == hydrogen wins over header_format)
+        el = draw(st.sampled_from(NAMES if mode == "hf-hydrogen" else NAMES[1:]))
         z = EL[el].atomic_number
         q = z - 1 if mode in ("Hlike", "Hlike-bnd") else draw(st.integers(0, z - 2)) if mode == "full" else draw(st.integers(0, z - 1))
     style = {"H": "hydrogen", "Hlike": "hydrogen-like", "Hlike-bnd": "hydrogen", "full": "full", "hf-hydrogen": "hydrogen",
              "hf-hydrogen-like": "hydrogen-like"}[mode]
     nlev = draw(st.integers(2, 9))
-    typ = st.sampled_from(sorted(TYPES))
+    typ = st.sampled_from(draw(st.sampled_from(POOLS)))      # real files: electron-impact blocks only, or with CX blocks as well
     if style == "hydrogen":
         tr = st.tuples(typ, st.integers(1, 9), st.integers(1, 6)).map(lambda t: (t[0], t[1] + t[2], t[1]))
     else:
@@ -424,9 +435,9 @@ def run_adf15(case, ctx):
         for c, t, b in expected:
             g = rates[c][el][q][t]
             info = "(%s %r, ISEL %d, %d densities x %d temperatures)" % (b["type"], t, b["isel"], len(b["dens"]), len(b["temp"]))
-            _eq(ctx, g["ne"], _vals(b["dens"]) * 1e6, "parse/ne", info)
-            _eq(ctx, g["te"], _vals(b["temp"]), "parse/te", info)
-            _eq(ctx, g["rate"], _vals(b["table"]) * 1e-6, "parse/rate", info)
+            _eq(ctx, _item(ctx, g, "ne", "parse/ne"), _vals(b["dens"]) * 1e6, "parse/ne", info)
+            _eq(ctx, _item(ctx, g, "te", "parse/te"), _vals(b["temp"]), "parse/te", info)
+            _eq(ctx, _item(ctx, g, "rate", "parse/rate"), _vals(b["table"]) * 1e-6, "parse/rate", info)
         want_wl = {t: (b["wl"] / 10.0) / 10.0 for _, t, b in expected}            # tenths of Angstrom -> Angstrom -> nm
         ctx.check(list(wavelengths.keys()) == [el] and list(wavelengths[el].keys()) == [q], "parse/wavelength-key",
                   lambda: "wavelengths keyed by %r" % (list(wavelengths.keys()),))
@@ -434,7 +445,7 @@ def run_adf15(case, ctx):
         ctx.check(sorted(repr(t) for t in gw.keys()) == sorted(repr(t) for t in want_wl), "parse/wavelength-transitions",
                   lambda: "wavelength transitions %r, index lists %r" % (sorted(map(repr, gw.keys()))[:6], sorted(map(repr, want_wl))[:6]))
         for t, w in want_wl.items():
-            _eq(ctx, gw[t], w, "parse/wavelength", "(%r)" % (t,))
+            _eq(ctx, _item(ctx, gw, t, "parse/wavelength"), w, "parse/wavelength", "(%r)" % (t,))
         if not case["install"]:
             return
         # ---- install -> repository
@@ -450,16 +461,17 @@ def run_adf15(case, ctx):
                     g = R.get_pec_recombination_rate(el, q, t, repo)
                 else:
                     g = R.get_pec_thermal_cx_rate(E.hydrogen, 0, el, q + 1, t, repo)
-            _eq(ctx, g["ne"], _vals(b["dens"]) * 1e6, "repo/ne", info)
-            _eq(ctx, g["te"], _vals(b["temp"]), "repo/te", info)
+            _eq(ctx, _item(ctx, g, "ne", "repo/ne"), _vals(b["dens"]) * 1e6, "repo/ne", info)
+            _eq(ctx, _item(ctx, g, "te", "repo/te"), _vals(b["temp"]), "repo/te", info)
             tab = _vals(b["table"]) * 1e-6
             if c == "thermalcx":      # documented: donor H0, Tdon = Trec -> the table is repeated along a 2-point donor-temperature axis
-                ctx.check(np.asarray(g["rate"]).ndim == 3 and np.asarray(g["rate"]).shape[2] == len(g["td"]), "repo/rate",
-                          lambda: "thermal CX PEC has shape %r with %d donor temperatures" % (np.asarray(g["rate"]).shape, len(g["td"])))
-                for k in range(np.asarray(g["rate"]).shape[2]):
-                    _eq(ctx, np.asarray(g["rate"])[:, :, k], tab, "repo/rate", info + " donor temperature index %d" % k)
+                g3, td = np.asarray(_item(ctx, g, "rate", "repo/rate")), np.asarray(_item(ctx, g, "td", "repo/td"))
+                ctx.check(g3.ndim == 3 and td.ndim == 1 and td.size >= 1 and g3.shape[2] == td.size, "repo/rate",
+                          lambda: "thermal CX PEC has shape %r with donor temperatures of shape %r" % (g3.shape, td.shape))
+                for k in range(g3.shape[2]):
+                    _eq(ctx, g3[:, :, k], tab, "repo/rate", info + " donor temperature index %d" % k)
             else:
-                _eq(ctx, g["rate"], tab, "repo/rate", info)
+                _eq(ctx, _item(ctx, g, "rate", "repo/rate"), tab, "repo/rate", info)
             with ctx.cut("get/wavelength"):
                 w = R.get_wavelength(el, q, t, repo)
             _eq(ctx, w, want_wl[t], "repo/wavelength", info)
@@ -532,11 +544,11 @@ def run_adf12(case, ctx):
             g = got[don][rec][zr][t][meta]
             info = "(n=%d-%d)" % t
             for key, name, f in ADF12_KEYS:
-                _eq(ctx, g[key], _vals(b[name]) * f, "parse/" + key, info)
+                _eq(ctx, _item(ctx, g, key, "parse/" + key), _vals(b[name]) * f, "parse/" + key, info)
             ref = _vals(b["ref"])
             for key, w in (("ebref", ref[0]), ("tiref", ref[1]), ("niref", ref[2] * 1e6), ("zref", ref[3]), ("bref", ref[4]),
                            ("qref", W.value(b["qefref"]) * 1e-6)):
-                _eq(ctx, g[key], w, "parse/" + key, info)
+                _eq(ctx, _item(ctx, g, key, "parse/" + key), w, "parse/" + key, info)
         with ctx.cut("install_adf12"):
             _quiet(I.install_adf12, don, meta, rec, zr, rel, download=False, repository_path=repo, adas_path=adas)
         _no_stray(ctx, "install_adf12")
@@ -547,8 +559,8 @@ def run_adf12(case, ctx):
             ctx.check([m for m, _ in lst] == [meta], "repo/metastables", lambda: "metastables %r, installed %r" % ([m for m, _ in lst], [meta]))
             g = lst[0][1]
             for key, name, f in ADF12_KEYS:
-                _eq(ctx, g[key], _vals(b[name]) * f, "repo/" + key, "(n=%d-%d)" % t)
-            _eq(ctx, g["qref"], W.value(b["qefref"]) * 1e-6, "repo/qref", "(n=%d-%d)" % t)
+                _eq(ctx, _item(ctx, g, key, "repo/" + key), _vals(b[name]) * f, "repo/" + key, "(n=%d-%d)" % t)
+            _eq(ctx, _item(ctx, g, "qref", "repo/qref"), W.value(b["qefref"]) * 1e-6, "repo/qref", "(n=%d-%d)" % t)
         if (40, 39) not in trs:
             _absent(ctx, "repo/absent-transition", R.get_beam_cx_rates, don, rec, zr, (40, 39), repo)
 
@@ -614,7 +626,7 @@ def run_adf2x(case, ctx):
         ctx.check(ok, "parse/keys", lambda: "unexpected key structure %r" % (got,))
         info = "(%d energies x %d densities, %d temperatures)" % (case["neb"], case["ndt"], case["ntt"])
         for k, w in want.items():
-            _eq(ctx, g[k], w, "parse/" + k, info)
+            _eq(ctx, _item(ctx, g, k, "parse/" + k), w, "parse/" + k, info)
         with ctx.cut("install_" + kind):
             if kind == "adf21":
                 _quiet(I.install_adf21, beam, tgt, zt, rel, download=False, repository_path=repo, adas_path=adas)
@@ -631,7 +643,7 @@ def run_adf2x(case, ctx):
             else:
                 g = R.get_beam_emission_rate(beam, tgt, zt, tr, repo)
         for k, w in want.items():
-            _eq(ctx, g[k], w, "repo/" + k, info)
+            _eq(ctx, _item(ctx, g, k, "repo/" + k), w, "repo/" + k, info)
         if zt + 1 <= tgt.atomic_number:
             if kind == "adf21":
                 _absent(ctx, "repo/absent-charge", R.get_beam_stopping_rate, beam, tgt, zt + 1, repo)
@@ -686,9 +698,9 @@ def run_negative(case, ctx):
 
 
 SUBCHECKS = {
-    "adf11": Given(adf11_cases, run_adf11, quick=160, thorough=16000),
-    "adf15": Given(adf15_cases, run_adf15, quick=120, thorough=12000),
-    "adf12": Given(adf12_cases, run_adf12, quick=50, thorough=4000),
-    "adf2x": Given(adf2x_cases, run_adf2x, quick=60, thorough=6000),
-    "negative": Given(negative_cases, run_negative, quick=40, thorough=2000),
+    "adf11": Given(adf11_cases, run_adf11, quick=320, thorough=16000),
+    "adf15": Given(adf15_cases, run_adf15, quick=240, thorough=12000),
+    "adf12": Given(adf12_cases, run_adf12, quick=80, thorough=4000),
+    "adf2x": Given(adf2x_cases, run_adf2x, quick=100, thorough=6000),
+    "negative": Given(negative_cases, run_negative, quick=60, thorough=2000),
 }
